@@ -5,8 +5,8 @@
 //!
 //! The orchestrator (`../check`) builds this crate against the tree under test, runs it,
 //! matches violations against known_findings.json and writes the evidence file.
-mod util; mod isol; mod sw; mod report; mod run;
-mod c03; mod c04; mod c05; mod c18;
+mod util; mod isol; mod sw; mod report; mod run; mod gen;
+mod c02; mod c03; mod c04; mod c05; mod c18;
 
 use report::Report;
 use serde_json::{json, Value};
@@ -39,6 +39,7 @@ type Replay = fn(&Ctx, &Value) -> Report;
 
 fn registry(id: &str) -> Option<(Explore, Replay)> {
     Some(match id {
+        "C02" => (c02::explore, c02::replay),
         "C03" => (c03::explore, c03::replay),
         "C04" => (c04::explore, c04::replay),
         "C05" => (c05::explore, c05::replay),
